@@ -161,7 +161,7 @@ def execute(plan):
     res = {'plan': plan, 'violations': []}
     v = res['violations']
     probes = {'lookups': 0}
-    ss = andes.System(default_config=True, no_output=True)
+    ss = andes.System(default_config=True, no_output=True, autogen_stale=False)
     adds = plan['adds']
     seq = resolve_order(plan)
     reg = {}            # key -> {'model', 'group', 'idx', 'params'}
